@@ -10,7 +10,7 @@
     unbounded [Z] in the model (strings with 8*len+7 >= 2^31 are outside the
     statement: their bit positions do not fit New's int32 arguments). *)
 From Coq Require Import ZArith List Bool.
-From Low Require Import Lib.MachInt Lib.Bits Lib.BitSeq Lib.Bytes Lib.Lex Lib.Pack_bw Lib.Val Model.Bitstr Model.Bitstr32 Model.LegacyBitstr32 Spec.BitstrSpec Spec.BitstrSearchSpec Spec.BitstrDecodeSpec Proofs.BitstrProofs Proofs.BitstrSearchProofs Proofs.Bitstr32Proofs Proofs.BitstrDecodeProofs.
+From Low Require Import Lib.MachInt Lib.Bits Lib.BitSeq Lib.Bytes Lib.Lex Lib.Pack_bw Lib.Val Model.Bitstr Model.Bitstr32 Model.LegacyBitstr32 Model.BitstrSession Spec.BitstrSpec Spec.BitstrSessionSpec Spec.BitstrSearchSpec Spec.BitstrDecodeSpec Proofs.BitstrProofs Proofs.BitstrSearchProofs Proofs.Bitstr32Proofs Proofs.BitstrDecodeProofs Proofs.BitstrSessionProofs.
 Import ListNotations.
 Open Scope Z_scope.
 
@@ -274,6 +274,30 @@ Theorem C09_cmpupto_wf : forall a e, bytes_ok a -> wf_enc e = true ->
 Proof. exact CmpUpto_wf. Qed.
 Print Assumptions C09_cmpupto_wf.
 
+(** * WIDENED: call sequences and aliased arguments (Spec/BitstrSessionSpec.v).  The model is
+    pure — results are values — so these say what the real code must do when a caller
+    writes into a slice New returned, passes views of a shared buffer (ops bitstr.Cmp/packed,
+    bitstr.CmpUpto/packed run the plain Cmp / CmpUpto model: C09_cmp_new, C09_cmpupto_new),
+    or passes a key that is a view of the encoding itself. *)
+
+(** a key that is the first k bytes of the encoding itself: a proper byte prefix of the payload
+    sorts first, the whole payload (with or without the mask byte) matches   (op bitstr.CmpUpto/alias) *)
+Theorem C09_cmpupto_self_prefix : forall b k, (k <= length (encB b))%nat ->
+  CmpUpto (firstn k (encB b)) (encB b) = Some (if (k <? length (pack b))%nat then -1 else 0).
+Proof. exact CmpUpto_self_prefix. Qed.
+Print Assumptions C09_cmpupto_self_prefix.
+
+Theorem C09_alias : forall b, alias_run (encB b) = Some (alias_spec b).
+Proof. exact alias_ok. Qed.
+Print Assumptions C09_alias.
+
+(** every step of a session of New / Len / Cmp calls gives the specified values, whatever was
+    encoded (and done to the results) before   (op bitstr.Session/scribble) *)
+Theorem C09_session : forall rs, Forall range_dom rs -> forall prev,
+  session_run (option_map encB prev) rs = Some (session_spec prev rs).
+Proof. exact session_ok. Qed.
+Print Assumptions C09_session.
+
 (** * non-vacuity: the hypotheses are satisfiable and the statements say something
     ("abc" = 0x61 0x62 0x63; the doc example New("abc", 5, 12)) *)
 Example C09_new_nonvacuous :
@@ -367,3 +391,15 @@ Example C09_decode_nonvacuous :
   wf_enc [0xf0] = false /\ wf_enc [256; 0xff] = false /\
   Cmp [0x61; 0x60; 0xf0] [0x61; 0x60; 0xf8] = Some (-1).
 Proof. repeat match goal with |- _ /\ _ => split end; vm_compute; reflexivity. Qed.
+
+Example C09_session_nonvacuous :
+  let rs := [([], 0, 0); ([97; 98], 8, 8); ([97; 98], 0, 9)] in
+  Forall range_dom rs /\
+  session_run None rs = Some [([255], 0, 0); ([255], 0, 0); ([97; 0; 128], 9, 1)] /\
+  alias_run [97; 0; 128] = Some [-1; -1; 0; 0] /\
+  encB (B [97; 98] 0 9) = [97; 0; 128] /\ length (pack (B [97; 98] 0 9)) = 2%nat.
+Proof.
+  cbv zeta. repeat match goal with |- _ /\ _ => split end; try (vm_compute; reflexivity).
+  repeat (apply Forall_cons; [unfold range_dom; repeat match goal with |- _ /\ _ => split end;
+    try (apply bytes_okb_ok; reflexivity); vm_compute; congruence|]); apply Forall_nil.
+Qed.
